@@ -707,7 +707,8 @@ func (vfs *MemFS) Remove(name string) error {
 	}
 
 	part := pi.Part()
-	if parent.children[part] == nil {
+	if parent.children[part] != child {
+		// The entry has been removed or replaced since the path was walked.
 		return &fs.PathError{Op: op, Path: name, Err: vfs.err.NoSuchDir}
 	}
 
